@@ -246,6 +246,7 @@ SchedResult run_tasks(const std::vector<std::function<void()>>& bodies, const Sc
   }
 
   int last = -1;
+  size_t sched_pos = 0;
   uint64_t th = 0x1234567, sg = 0x7654321;
   std::vector<Task*> R;
   size_t unfinished = s.tasks.size();
@@ -269,14 +270,13 @@ SchedResult run_tasks(const std::vector<std::function<void()>>& bodies, const Sc
     Task* lastt = (last >= 0 && s.tasks[last]->st == T_RUNNABLE) ? s.tasks[last] : nullptr;
     switch (cfg.chooser) {
       case CH_EXPLICIT: {
-        size_t step = static_cast<size_t>(res.steps);
-        if (step < cfg.schedule.size()) {
-          int want = cfg.schedule[step];
+        // Entries naming a task that cannot run now (blocked, finished, or dropped by the minimiser) are skipped,
+        // not consumed: what is left of a schedule keeps the relative order of the tasks that are still there.
+        while (sched_pos < cfg.schedule.size() && !pick) {
+          int want = cfg.schedule[sched_pos++];
           for (Task* t : R) if (t->id == want) pick = t;
-          if (!pick) pick = R[static_cast<size_t>(want < 0 ? 0 : want) % R.size()];
-        } else {
-          pick = (lastt && !cfg.explicit_default_first) ? lastt : R[0];
         }
+        if (!pick) pick = (lastt && !cfg.explicit_default_first) ? lastt : R[0];
         break;
       }
       case CH_UNIFORM: pick = R[rng.below(R.size())]; break;
